@@ -91,6 +91,7 @@ def run(ch: Checker) -> None:
     ch.rule('C14.2', 'new_socket_connection: every path to ip_address()/connect()/create_connection() either established that the host is not bracketed or replaced it by the unbracketed text; '
                      'a regex used to unwrap admits 0-9a-fA-F : and .', 1)
     ch.rule('C14.3', '_set_line_attributes: CONNECT -> port 443 unless explicit; otherwise 80 unless explicit; _is_https_tunnel is set from method == CONNECT before set_url()', 2)
+    ch.rule('C14.12', 'connect_upstream dials what the parser derived: with host and port present no `raise` of its own precedes the connection attempt (a further test of the host bytes refuses destinations the parser accepts)', 1)
     ch.rule('C14.4', 'connect_upstream raises HttpProtocolException when host or port is missing, before any connection is made', 1)
     ch.rule('C14.5', 'new_socket_connection: ValueError is the only exception swallowed around ip_address(); fall-through = socket.create_connection(<same addr>); AF_INET for version 4 else AF_INET6 '
                      'with connect((host, port, 0, 0))', 2)
@@ -222,6 +223,25 @@ def run(ch: Checker) -> None:
             made = any(isinstance(c, ast.Call) and attr_chain(c.func) in ('TcpServerConnection', 'self.upstream_conn_pool.acquire') for i, st_ in p.stmts() for c in walk_no_nested(st_))
             if p.exit_kind != 'raise' or made:
                 bad = ('with host or port missing connect_upstream does not raise a protocol exception before connecting', p.describe())
+    # C14.12: with host and port present nothing else is asked of the destination before dialling
+    bad12 = None
+    n12 = 0
+    for p in fpaths(g, limit=100000):
+        fd = allfacts(p)
+        if fd.get('self.request.host') is not True or fd.get('self.request.port') is not True:
+            continue
+        n12 += 1
+        ex12 = p.executed()
+        made_at = [i for i, nd, lab in ex12 if nd.kind == 'stmt' and nd.ast is not None and any(isinstance(c_, ast.Call) and (attr_chain(c_.func) in ('TcpServerConnection', 'self.upstream_conn_pool.acquire') or
+                   (isinstance(c_.func, ast.Attribute) and c_.func.attr == 'connect')) for c_ in walk_no_nested(nd.ast))]
+        first_made = made_at[0] if made_at else 10 ** 9
+        for i, nd, lab in ex12:
+            in_handler = any(g.nodes[nid_].kind == 'handler' for nid_, lab_ in p.steps[:i])       # a failure of the attempt itself (resolver, constructor) is reported, not a test
+            if nd.kind == 'stmt' and isinstance(nd.ast, ast.Raise) and i < first_made and not in_handler:
+                tests = [k for k in allfacts(p, i) if 'self.request.host' not in (k,) and 'self.request.port' not in (k,)]
+                bad12 = ('connect_upstream refuses a request that has a host and a port before dialling, on a condition of its own (%s): a destination the parser accepted -- e.g. a registered name in UTF-8 -- '
+                         'is never connected to' % '; '.join(tests[-2:])[:160], p.describe(14))
+    ch.check(bad12 is None and n12 > 0, 'C14.12', cu, 'no second admission test', 'with host and port present every path reaches the connect (%d path(s))' % n12, bad12[0] if bad12 else 'no path with host and port', witness=bad12[1] if bad12 else None)
     ch.check(bad is None and n4 > 0, 'C14.4', cu, 'missing host/port', 'protocol exception raised on %d path(s)' % n4, bad[0] if bad else 'no such path', witness=bad[1] if bad else None)
 
     # ---------------- C14.2 / C14.5
@@ -378,7 +398,11 @@ def run(ch: Checker) -> None:
     oku = len(usplit) == 1 and ((usplit[0].func.attr == 'split' and len(usplit[0].args) == 2 and ce.try_eval(up.module, usplit[0].args[1]) == 1) or usplit[0].func.attr == 'partition')  # type: ignore[attr-defined]
     ch.check(oku, 'C14.6', up, 'userinfo split', 'userinfo split on the first colon only', 'userinfo is split with %s: a missing password or a colon inside the password makes a valid target unparseable' % [norm(c) for c in usplit])
     # ---------------- C14.8 (shared)
+    ch.rule('C14.11', 'the destination is derived from this request\'s own target: Url / HttpParser objects are mutable, so the functions that build them are not memoised (expected 0 sites)', 1)
+    from .common import memoised_objects_check
+    memoised_objects_check(ch, 'C14.11', ('Url', 'HttpParser', 'ChunkParser', 'WebsocketFrame'))
     ch.import_rules('C02', {'C02.2': 'C14.8'}, 'the path the origin receives is the request target\'s path, unedited')
+    ch.import_rules('C04', {'C04.4': 'C14.10'}, 'the request line forwarded for a later request is that request\'s own only if the follow-up parser is fresh for each request')
 
 
 def _authority_split(ch: Checker, ce: ConstEval) -> None:
